@@ -513,7 +513,8 @@ pub fn run<D: Dec>(rep: &mut Report) {
         let mut h = t as u64;
         while h < n_hist {
             let mut rng = Rng::fork(seed, 0xC18_0000 + (h << 2) + set as u64);
-            let ops = hostile_ops(&mut rng, &typist, hist_len as usize);
+            let this_len = if h < 8 { hist_len as usize * 100 } else { hist_len as usize };
+            let ops = hostile_ops(&mut rng, &typist, this_len);
             run_case::<D>((h % 10) as usize, &[], &ops, &mut out);
             h += threads as u64;
         }
